@@ -81,15 +81,16 @@ def classify(msg):
         if s in m: return "semantic"
     return "other"
 
-class UnitResult:
-    pass
+import threading
+WEAVE_LOCK = threading.Lock()
 
 def run_unit(name, thorough=False, use_cache=True):
     """-> dict: status ok|failed|undecided, failures [...], tags, info"""
     vspec = os.path.join(ROOT, "contracts", name + ".vspec")
     os.makedirs(CACHE, exist_ok=True)
     try:
-        text, lmap, info = core.weave(vspec, REPO, ROOT)
+        with WEAVE_LOCK:      # vx keeps per-weave counters in module state
+            text, lmap, info = core.weave(vspec, REPO, ROOT)
     except core.Undecided as e:
         return {"unit": name, "status": "undecided", "reason": "extraction: " + str(e), "failures": [], "clauses": [], "info": None}
     except Exception as e:   # a bug in vx must never look like a violation
